@@ -49,7 +49,7 @@ Inductive val :=
 | VA (l : list val)           (* numpy array *)
 | VO (cls : string) (fields : list (string * val)).   (* an object: its class name and the attributes set so far *)
 
-Inductive binop := Add | Sub | Mul | Div | FloorDiv | Mod.
+Inductive binop := Add | Sub | Mul | Div | FloorDiv | Mod | Pow.   (* Pow: x ** n, n a non-negative int *)
 Inductive cmpop := CLt | CLe | CGt | CGe | CEq | CNe.
 
 (** comprehensions: [e for x in it] (a list), all(e for x in it), any(e for x in it);
@@ -74,7 +74,8 @@ Inductive expr :=
 | EIndex (a : expr) (i : Z)                  (* a[i], i >= 0 a literal *)
 | EIdx (a : expr) (i : expr)                 (* a[i], i computed (negative: from the end) *)
 | ESliceTo (a : expr) (k : Z)                (* a[:k]  (k = -1: all but the last; k >= 0: first k) *)
-| ESliceFrom (a : expr) (k : Z).             (* a[k:], k >= 0 *)
+| ESliceFrom (a : expr) (k : Z)              (* a[k:], k >= 0 *)
+| ECallStar (f : string) (args : list expr) (star : expr).   (* f(args, *star): the elements of the sequence star are further positional arguments *)
 
 Inductive stmt :=
 | SAssign (targets : list string) (e : expr)     (* x = e ; a, b = e *)
@@ -89,7 +90,8 @@ Inductive stmt :=
 | SExpr (e : expr)                               (* an expression evaluated for its exceptions *)
 | SRaise
 | SReturn (e : expr)
-| SPass.
+| SPass
+| SSetCol (x : string) (i : expr) (e : expr).   (* x[:, i] = e, x a 2-D array, e a 1-D array with one element per row *)
 
 Record func := { f_params : list string; f_body : list stmt }.
 
@@ -112,6 +114,10 @@ Definition toQ (v : val) : option Q :=
 Definition qfloordiv (x y : Q) : Q := inject_Z (Qfloor (x / y)).
 Definition qmod (x y : Q) : Q := x - y * inject_Z (Qfloor (x / y)).
 
+(** [x ** n] for a non-negative int n, by repeated multiplication (0 ** 0 = 1, as in Python and numpy) *)
+Fixpoint qpow_nat (x : Q) (n : nat) : Q :=
+  match n with O => 1 | S k => x * qpow_nat x k end.
+
 Definition arith (op : binop) (a b : val) : option val :=
   match op, a, b with
   | Add, VZ x, VZ y => Some (VZ (x + y))
@@ -131,6 +137,13 @@ Definition arith (op : binop) (a b : val) : option val :=
   | Mod, _, _ => match toQ a, toQ b with
                  | Some x, Some y => if Qeqb y 0 then None else Some (VQ (qmod x y))
                  | _, _ => None end
+  (* x ** n: a negative exponent (a float from ints in Python, an error on numpy int arrays, a zero
+     division for 0.0) and a float exponent are outside the fragment *)
+  | Pow, VZ x, VZ y => if (y <? 0)%Z then None else Some (VZ (x ^ y))
+  | Pow, _, VZ y => match toQ a with
+                    | Some x => if (y <? 0)%Z then None else Some (VQ (qpow_nat x (Z.to_nat y)))
+                    | None => None end
+  | Pow, _, _ => None
   end.
 
 Section MapOpt.
@@ -523,6 +536,13 @@ Definition call (f : string) (args : list val) : option (option val) :=   (* Non
     match args with [VA l] => if all_scalar l then Some (Some (VA l)) else None | _ => None end
   else if is "attr:size" then
     match args with [VA l] => if all_scalar l then Some (Some (VZ (Z.of_nat (List.length l)))) else None | _ => None end
+  else if is "zip" then                 (* zip(a, b): pairs, as long as the shorter one (rendered as a list: only iterated) *)
+    match args with
+    | [a; b] => match seq_of a, seq_of b with
+                | Some l, Some r => Some (Some (VL (map (fun p => VT [fst p; snd p]) (combine l r))))
+                | _, _ => None end
+    | _ => None
+    end
   else if String.prefix "attr:" f then      (* obj.a: an attribute set in this function, or given with the object *)
     match args with
     | [VO _ fs] => match lookup fs (String.substring 5 (String.length f - 5) f) with
@@ -700,6 +720,28 @@ Fixpoint eval (env : list (string * val)) (e : expr) {struct e} : option (option
       | Some None => Some None
       | _ => None
       end
+  | ECallStar f args star =>
+      match (fix go (l : list expr) : option (option (list val)) :=
+               match l with
+               | [] => Some (Some [])
+               | a :: t => match eval env a with
+                           | Some (Some v) => match go t with Some (Some r) => Some (Some (v :: r)) | o => o end
+                           | Some None => Some None
+                           | None => None end
+               end) args with
+      | Some (Some vs) =>
+          match eval env star with
+          | Some (Some sv) =>
+              match seq_of sv with
+              | Some more => match user f with Some g => g (vs ++ more)%list | None => call f (vs ++ more)%list end
+              | None => None
+              end
+          | Some None => Some None
+          | None => None
+          end
+      | Some None => Some None
+      | None => None
+      end
   end.
 
 Fixpoint bind_targets (targets : list string) (vs : list val) (env : list (string * val))
@@ -747,6 +789,32 @@ Definition set_slice_to (a : val) (k : Z) (v : val) : option (option val) :=
             | Some (VA r) => Some (Some (VA (r ++ skipn (Z.to_nat k) l)))
             | _ => None end
   | _ => None
+  end.
+
+(** x[:, j] = v: element k of the 1-D array v goes to row k, column j (cast to the array's type, as
+    [set_item] does).  An array without rows has lost its number of columns (numpy raises IndexError for
+    j out of range even then), and a scalar or shorter v would broadcast: outside the fragment *)
+Fixpoint set_col_rows (rows vs : list val) (j : Z) : option (option (list val)) :=
+  match rows, vs with
+  | [], [] => Some (Some [])
+  | VA r :: rows', x :: vs' =>
+      match set_item (VA r) j x with
+      | Some (Some r') => match set_col_rows rows' vs' j with
+                          | Some (Some t) => Some (Some (r' :: t))
+                          | o => o end
+      | Some None => Some None
+      | None => None
+      end
+  | _, _ => None
+  end.
+
+Definition set_col (a : val) (j : Z) (v : val) : option (option val) :=
+  match a, v with
+  | VA (r :: rows), VA vs => match set_col_rows (r :: rows) vs j with
+                             | Some (Some t) => Some (Some (VA t))
+                             | Some None => Some None
+                             | None => None end
+  | _, _ => None
   end.
 
 Fixpoint exec (s : stmt) (env : list (string * val)) {struct s} : outcome :=
@@ -862,6 +930,17 @@ Fixpoint exec (s : stmt) (env : list (string * val)) {struct s} : outcome :=
   | SRaise => Raised
   | SReturn e => match eval env e with Some (Some v) => Returned v | Some None => Raised | None => Stuck end
   | SPass => Normal env
+  | SSetCol x i e =>
+      match lookup env x, eval env i, eval env e with
+      | Some a, Some (Some (VZ j)), Some (Some v) =>
+          match set_col a j v with
+          | Some (Some a') => Normal ((x, a') :: env)
+          | Some None => Raised
+          | None => Stuck end
+      | Some _, Some None, _ => Raised
+      | Some _, Some (Some _), Some None => Raised
+      | _, _, _ => Stuck
+      end
   end.
 
 Fixpoint exec_list (l : list stmt) (env : list (string * val)) : outcome :=
